@@ -200,6 +200,9 @@ class Ctx:
             r = self.rng(e[2] if len(e) > 2 else None)
             if r is None:
                 return self.opaque(e)
+            if len(e) > 3:
+                # an explicitly indexed element: a different index expression is a different value
+                return self.atom(("m", e[1], e[3]), r[0], r[1])
             return self.atom(("m", e[1]), r[0], r[1])
         if h == "cast":
             kind, frm, to, inner = e[1], e[2], e[3], e[4]
@@ -1303,6 +1306,10 @@ class Ctx:
             if hi_ is not None:
                 sysm.append(Lin(-hi_, {a: 1}))
         if fm_infeasible(sysm):
+            # guard against vacuous proofs: the hypotheses themselves must be satisfiable (an inconsistent hypothesis set would
+            # "prove" anything; it indicates conflated values or an unreachable site - neither is accepted as a discharge)
+            if rel and fm_infeasible(sysm[1:]):
+                return False, "inconsistent hypotheses"
             return True, "guards(%d)" % len(rel)
         if _depth < 2:
             ok = self.case_split(goal, bb, _depth)
